@@ -1,0 +1,74 @@
+//go:build verif
+
+package derive
+
+import (
+	"go/types"
+	"io"
+)
+
+// This file is compiled only with the build tag "verif". It exposes the unexported name table,
+// printer and plugin ordering to the verification harness under /verif, which drives them with
+// operation sequences and compares the answers with a formal model. It adds no behaviour.
+
+// VerifTable is the name table of one plugin together with the printer its qualifier imports into.
+type VerifTable struct {
+	tm *typesMap
+	p  *printer
+}
+
+// VerifNewTable creates a name table as newPackage does for one plugin.
+func VerifNewTable(pkg *types.Package, prefix string, reserved []string, autoname, dedup bool) *VerifTable {
+	p := newPrinter(pkg.Name()).(*printer)
+	qual := newQualifier(p, pkg)
+	res := make(map[string]struct{}, len(reserved))
+	for _, r := range reserved {
+		res[r] = struct{}{}
+	}
+	return &VerifTable{tm: newTypesMap(qual, prefix, res, autoname, dedup).(*typesMap), p: p}
+}
+
+func (t *VerifTable) SetFuncName(name string, typs ...types.Type) (string, error) {
+	return t.tm.SetFuncName(name, typs...)
+}
+func (t *VerifTable) GetFuncName(typs ...types.Type) string { return t.tm.GetFuncName(typs...) }
+func (t *VerifTable) Generating(typs ...types.Type)         { t.tm.Generating(typs...) }
+func (t *VerifTable) ToGenerate() [][]types.Type            { return t.tm.ToGenerate() }
+func (t *VerifTable) Done() bool                            { return t.tm.Done() }
+func (t *VerifTable) NameOf(typs ...types.Type) (string, bool) {
+	return t.tm.nameOf(typs)
+}
+func (t *VerifTable) NewName(typs ...types.Type) string { return t.tm.newName(typs) }
+func (t *VerifTable) TypeString(typ types.Type) string  { return t.tm.TypeString(typ) }
+
+// Names returns the registered names in registration order.
+func (t *VerifTable) Names() []string { return append([]string(nil), t.tm.names...) }
+
+// VerifPrinter exposes the printer and its import table.
+type VerifPrinter struct{ p *printer }
+
+func VerifNewPrinter(pkgName string) *VerifPrinter {
+	return &VerifPrinter{p: newPrinter(pkgName).(*printer)}
+}
+func (v *VerifPrinter) NewImport(name, path string) Import { return v.p.NewImport(name, path) }
+func (v *VerifPrinter) P(format string, a ...interface{})  { v.p.P(format, a...) }
+func (v *VerifPrinter) WriteTo(w io.Writer) (int64, error) { return v.p.WriteTo(w) }
+func (v *VerifPrinter) HasContent() bool                   { return v.p.HasContent() }
+
+// Imports returns a copy of the alias -> path table.
+func (v *VerifPrinter) Imports() map[string]string {
+	m := make(map[string]string, len(v.p.imports))
+	for k, x := range v.p.imports {
+		m[k] = x
+	}
+	return m
+}
+
+// VerifSortPlugins orders plugins as NewPlugins does.
+func VerifSortPlugins(ps []Plugin) { sortPlugins(ps) }
+
+// VerifUnvendor exposes unvendor.
+func VerifUnvendor(path string) string { return unvendor(path) }
+
+// VerifEq exposes the assignability-based comparison of argument type lists.
+func VerifEq(this, that []types.Type) bool { return eq(this, that) }
